@@ -19,7 +19,7 @@ LDSAN  := -fsanitize=leak
 endif
 CXX    := g++
 KIT    := sim/kit
-HARNESSES := wd obj_poly obj_shapes obj_grid obj_pset obj_prod rows mip
+HARNESSES := wd obj_poly obj_shapes obj_grid obj_pset obj_prod rows mip pip widen
 
 all: lib $(addprefix $(B)/bin/,$(HARNESSES))
 
@@ -63,6 +63,38 @@ $(B)/bin/widen: $(B)/h/widen.o $(B)/libppl.a
 	@mkdir -p $(dir $@)
 	$(CXX) $(OPT) -o $@ $< $(B)/libppl.a -lgmpxx -lgmp $(LDSAN)
 
+# ---- C interface: regenerated with m4 from the current tree, compiled, plus generated thunks
+CAPI_DEPS := $(wildcard $(REPO)/interfaces/*.m4 $(REPO)/interfaces/C/*.m4 $(REPO)/interfaces/C/ppl_c_implementation_common* $(REPO)/interfaces/C/ppl_c_header.h $(REPO)/interfaces/C/ppl_c_version.h)
+$(B)/capi_src/.stamp: $(CAPI_DEPS) tools/gen_capi.sh tools/gen_capi_thunks.py
+	@mkdir -p $(B)/capi_src
+	REPO=$(REPO) tools/gen_capi.sh $(abspath $(B)/capi_src) >/dev/null
+	echo '#include "ppl_c.h"' | gcc -E -x c -I$(B)/capi_src - | grep -v '^#' > $(B)/capi_src/ppl_c_pp.h
+	touch $@
+
+$(B)/capi_obj/%.o: $(B)/capi_src/%.cc
+	@mkdir -p $(dir $@)
+	$(CXX) $(COMMON) $(OPT) -I$(B)/capi_src -I$(REPO)/interfaces -c $< -o $@
+
+capi_objs: $(patsubst $(B)/capi_src/%.cc,$(B)/capi_obj/%.o,$(wildcard $(B)/capi_src/ppl_c_*.cc))
+	@rm -f $(B)/libppl_c.a
+	ar rcs $(B)/libppl_c.a $^
+
+$(B)/libppl_c.a: $(B)/capi_src/.stamp
+	$(MAKE) FL=$(FL) BUILDROOT=$(BUILDROOT) REPO=$(REPO) capi_objs
+
+# thunks only for entry points that the compiled interface actually defines (declared-but-undefined ones are reported by the generator)
+$(B)/capi_src/capi_thunks.inc: $(B)/libppl_c.a tools/gen_capi_thunks.py
+	nm -g --defined-only $(B)/libppl_c.a | awk '$$2 == "T" {print $$3}' | sort -u > $(B)/capi_src/defined_symbols.txt
+	python3 tools/gen_capi_thunks.py $(B)/capi_src/ppl_c_pp.h $(B)/capi_src/capi_thunks.inc $(B)/capi_src/defined_symbols.txt
+
+$(B)/h/capi.o: sim/harness/capi.cc $(B)/capi_src/capi_thunks.inc
+	@mkdir -p $(dir $@)
+	$(CXX) $(COMMON) $(OPT) -fno-access-control -I sim -I$(B)/capi_src -I$(REPO)/interfaces -c $< -o $@
+
+$(B)/bin/capi: $(B)/h/capi.o $(B)/libppl_c.a $(B)/libppl.a
+	@mkdir -p $(dir $@)
+	$(CXX) $(OPT) -o $@ $(B)/h/capi.o $(B)/libppl_c.a $(B)/libppl.a -lgmpxx -lgmp $(LDSAN)
+
 # obj family: allocator shim inside; LSan (plain) or ASan+LSan at link time
 $(B)/bin/obj_%: $(B)/h/obj_%.o $(B)/libppl.a
 	@mkdir -p $(dir $@)
@@ -72,6 +104,6 @@ clean:
 	rm -rf _build
 
 -include $(OBJS:.o=.d)
--include $(wildcard $(B)/h/*.d) $(wildcard $(B)/k/*.d)
+-include $(wildcard $(B)/h/*.d) $(wildcard $(B)/k/*.d) $(wildcard $(B)/capi_obj/*.d)
 .SECONDARY:
-.PHONY: all lib clean
+.PHONY: all lib clean capi_objs
